@@ -81,8 +81,11 @@ def gen_case(rng, tier):
                  "horizon": rng.choice([60, 200, 600])}
     else:
         sched = {"mode": "seed", "seed": rng.getrandbits(32), "policy": "rw", "p": rng.choice([0.05, 0.1, 0.3, 0.5])}
+    # a second generation of threads started after every thread of the first one has ended (most of them without remove()): a new
+    # thread is a new scope, whatever identifiers the operating system recycles
+    gen2 = rng.randint(1, 3) if kind == "threadlocal" and rng.random() < 0.5 else 0
     return {"kind": kind, "scopes": scopes, "progs": progs, "model": "F" if rng.random() < 0.4 else "G", "sched": sched,
-            "switches": None}
+            "switches": None, "gen2": gen2}
 
 
 def explicit_of(case, res):
@@ -130,22 +133,25 @@ def run_case(case):
         seq[0] += 1
         return seq[0]
 
-    scopes = case["scopes"]
+    scopes = list(case["scopes"])
     kind = case["kind"]
+    cur_sim = [sim]
+    scope_base = [0]
 
     def cur_scope():
-        return scopes[sim.cur.tid] if sim.cur is not None else -1
+        s_ = cur_sim[0]
+        return scopes[scope_base[0] + s_.cur.tid] if s_.cur is not None else -1
 
     class TrackedSession(Session):
         def __init__(self, **kw):
             self._c52_label = len(sessions)
             self._c52_scope = cur_scope()
-            self._c52_worker = sim.cur.tid if sim.cur is not None else -1
+            self._c52_worker = cur_sim[0].cur.tid if cur_sim[0].cur is not None else -1
             self._c52_closed_by = []
             sessions.append(self)
-            sim.preempt_point(("factory", "enter"))     # a slow session factory
+            cur_sim[0].preempt_point(("factory", "enter"))     # a slow session factory
             super().__init__(**kw)
-            sim.preempt_point(("factory", "exit"))
+            cur_sim[0].preempt_point(("factory", "exit"))
 
         def close(self):
             self._c52_closed_by.append((cur_scope(), stamp()))
@@ -159,7 +165,7 @@ def run_case(case):
 
     def worker(w, ops):
         def run():
-            sc = scopes[w]
+            sc = scopes[scope_base[0] + w]
             for op in ops:
                 inv = stamp()
                 res = None
@@ -194,6 +200,19 @@ def run_case(case):
         if sim.deadlock is not None:
             V("deadlock", "workers deadlocked inside scoped_session", threads=sim.deadlock)
         ok = not sim.aborting
+        n2 = case.get("gen2", 0)
+        if ok and n2:
+            # every first-generation thread has ended; the second generation runs without pre-emption (it only asks for its session)
+            nw = len(case["progs"])
+            scope_base[0] = nw
+            scopes.extend(range(nw, nw + n2))
+            sim2 = TS.Sim({"mode": "explicit", "switches": []}, TRACE, model=case["model"], max_steps=20000)
+            cur_sim[0] = sim2
+            for w in range(n2):
+                sim2.spawn(worker(w, ["get", "has", "get"]))
+            sim2.run()
+            ok = not sim2.aborting
+            bump("probe:second_generation_threads", n2)
     finally:
         patch.restore()
 
